@@ -157,6 +157,11 @@ pub struct ScriptSource<T: Clone + Send + Sync + 'static> {
     scripts: Arc<Vec<Vec<StreamElement<T>>>>,
     replication: Replication,
     mine: std::collections::VecDeque<StreamElement<T>>,
+    /// number of elements handed out so far (shared, for drivers that align output with input)
+    consumed: Option<Arc<std::sync::atomic::AtomicUsize>>,
+    /// virtual-clock advance (ms) applied before handing out the i-th element
+    delays: Option<Arc<Vec<u64>>>,
+    pos: usize,
 }
 
 impl<T: Clone + Send + Sync + 'static> ScriptSource<T> {
@@ -165,7 +170,19 @@ impl<T: Clone + Send + Sync + 'static> ScriptSource<T> {
             scripts: Arc::new(scripts),
             replication,
             mine: Default::default(),
+            consumed: None,
+            delays: None,
+            pos: 0,
         }
+    }
+    pub fn counted(mut self, c: Arc<std::sync::atomic::AtomicUsize>) -> Self {
+        self.consumed = Some(c);
+        self
+    }
+    /// Advance the virtual clock by `delays[i]` milliseconds before element `i` is handed out.
+    pub fn timed(mut self, delays: Vec<u64>) -> Self {
+        self.delays = Some(Arc::new(delays));
+        self
     }
     /// One replica, the given items followed by end of stream.
     pub fn items(items: Vec<T>) -> Self {
@@ -201,6 +218,17 @@ impl<T: Clone + Send + Sync + 'static> Operator for ScriptSource<T> {
         self.mine = complete_script(script).into();
     }
     fn next(&mut self) -> StreamElement<T> {
+        if let Some(d) = &self.delays {
+            if let Some(ms) = d.get(self.pos) {
+                if *ms > 0 {
+                    crate::rt::advance(std::time::Duration::from_millis(*ms));
+                }
+            }
+        }
+        self.pos += 1;
+        if let Some(c) = &self.consumed {
+            c.fetch_add(1, std::sync::atomic::Ordering::SeqCst);
+        }
         self.mine.pop_front().unwrap_or(StreamElement::Terminate)
     }
     fn structure(&self) -> BlockStructure {
